@@ -1,1 +1,190 @@
-// Verification-only module (cfg(kani)); harnesses are added here.
+// Verification-only module (cfg(kani)); copied into the scratch copy of /repo by
+// /verif/engine/kani_run.py.
+//
+// C13, transcript hashes (RFC 9420 section 8.2), against the ghost provider of
+// key_schedule/verif_kani.rs:
+//
+//   struct { WireFormat wire_format; FramedContent content; /* commit */
+//            opaque signature<V>; } ConfirmedTranscriptHashInput;
+//   struct { MAC confirmation_tag; } InterimTranscriptHashInput;          (MAC = opaque<V>)
+//   confirmed_transcript_hash_[n] = Hash(interim_transcript_hash_[n-1] || ConfirmedTranscriptHashInput_[n])
+//   interim_transcript_hash_[n]   = Hash(confirmed_transcript_hash_[n] || InterimTranscriptHashInput_[n])
+//
+//   struct { opaque group_id<V>; uint64 epoch; Sender sender; opaque authenticated_data<V>;
+//            ContentType content_type;            // application(1) proposal(2) commit(3)
+//            select (content_type) { case commit: Commit commit; ... } } FramedContent;
+//   struct { SenderType sender_type;   // member(1) external(2) new_member_proposal(3) new_member_commit(4)
+//            select (sender_type) { case member: uint32 leaf_index;
+//                                   case external: uint32 sender_index; ... } } Sender;
+//   struct { ProposalOrRef proposals<V>; optional<UpdatePath> path; } Commit;
+//   struct { ProposalOrRefType type;   // proposal(1) reference(2)
+//            select (type) { case proposal: Proposal proposal; ... } } ProposalOrRef;
+//   struct { ProposalType proposal_type;  // uint16, remove(3)
+//            select (proposal_type) { case remove: Remove remove; ... } } Proposal;
+//   struct { uint32 removed; } Remove;
+//
+// The expected hash input is assembled by hand from these definitions (no mls-rs-codec).
+// Bounds: group_id 2, authenticated_data 1, signature 2, previous hash 2 bytes (values
+// symbolic); commit content with no proposal or one Remove proposal, no path.
+use super::*;
+use crate::group::commit::Commit;
+use crate::group::framing::{Content, Sender};
+use crate::group::proposal::{Proposal, ProposalOrRef, RemoveProposal};
+use crate::tree_kem::node::LeafIndex;
+
+crate::c13_ghost_support!();
+
+fn rfc_sender(o: &mut Vec<u8>, s: &Sender) {
+    match s {
+        Sender::Member(i) => {
+            o.push(1);
+            rfc_u32(o, *i);
+        }
+        Sender::External(i) => {
+            o.push(2);
+            rfc_u32(o, *i);
+        }
+        Sender::NewMemberProposal => o.push(3),
+        Sender::NewMemberCommit => o.push(4),
+    }
+}
+
+/// FramedContent carrying a Commit with the given Remove proposals and no path
+fn rfc_framed_commit(c: &FramedContent, removed: Option<u32>) -> Vec<u8> {
+    let mut o = Vec::with_capacity(48);
+    rfc_opaque(&mut o, &c.group_id);
+    rfc_u64(&mut o, c.epoch);
+    rfc_sender(&mut o, &c.sender);
+    rfc_opaque(&mut o, &c.authenticated_data);
+    o.push(3); // content_type = commit
+    let mut proposals = Vec::with_capacity(8);
+    if let Some(r) = removed {
+        proposals.push(1); // ProposalOrRefType proposal
+        rfc_u16(&mut proposals, 3); // ProposalType remove
+        rfc_u32(&mut proposals, r);
+    }
+    rfc_opaque(&mut o, &proposals);
+    o.push(0); // optional<UpdatePath> absent
+    o
+}
+
+fn sender_of(kind: u8) -> Sender {
+    match kind {
+        0 => Sender::Member(kani::any()),
+        1 => Sender::External(kani::any()),
+        2 => Sender::NewMemberProposal,
+        _ => Sender::NewMemberCommit,
+    }
+}
+
+fn commit_content(sender: Sender, removed: Option<u32>) -> FramedContent {
+    let proposals = match removed {
+        Some(r) => vec![ProposalOrRef::from(Proposal::Remove(RemoveProposal {
+            to_remove: LeafIndex::unchecked(r),
+        }))],
+        None => vec![],
+    };
+    FramedContent {
+        group_id: any_exact::<2>(),
+        epoch: kani::any(),
+        sender,
+        authenticated_data: any_exact::<1>(),
+        content: Content::Commit(alloc::boxed::Box::new(Commit { proposals, path: None })),
+    }
+}
+
+fn confirmed_case(sender_kind: u8, with_remove: bool) {
+    let p = GhostProvider::new();
+    let removed: Option<u32> = with_remove.then(|| kani::any());
+    let content = commit_content(sender_of(sender_kind), removed);
+    let signature = any_exact::<2>();
+    let wire_format = if kani::any() { WireFormat::PublicMessage } else { WireFormat::PrivateMessage };
+    let auth = AuthenticatedContent {
+        wire_format,
+        content,
+        auth: crate::group::message_signature::FramedContentAuthData {
+            signature: MessageSignature::from(signature.clone()),
+            confirmation_tag: None, // not part of the confirmed transcript hash input
+        },
+    };
+    let prev = any_exact::<2>();
+    let interim = InterimTranscriptHash::from(prev.clone());
+
+    let r = create(&p, &interim, &auth);
+    assert!(r.is_ok());
+    let h = r.ok().unwrap();
+    kani::cover!(with_remove && sender_kind == 0);
+    kani::cover!(!with_remove && sender_kind == 3);
+
+    let mut want = Vec::with_capacity(64);
+    want.extend_from_slice(&prev);
+    rfc_u16(&mut want, if wire_format == WireFormat::PublicMessage { 1 } else { 2 });
+    want.extend_from_slice(&rfc_framed_commit(&auth.content, removed));
+    rfc_opaque(&mut want, &signature);
+    assert!(p.calls() == 1);
+    assert!(p.is(0, Op::Hash, &[], &want, 0));
+    assert!(is_out(&h, 1, HASH_LEN));
+    core::mem::forget(auth);
+}
+
+#[kani::proof]
+#[kani::unwind(12)]
+fn c13_confirmed_transcript_hash_bounded_2() {
+    let with_remove: bool = kani::any();
+    let k: u8 = kani::any();
+    kani::assume(k < 4);
+    let mut i = 0;
+    while i < 4 {
+        if k == i {
+            if with_remove {
+                confirmed_case(i, true);
+            } else {
+                confirmed_case(i, false);
+            }
+        }
+        i += 1;
+    }
+}
+
+// interim_transcript_hash = Hash(confirmed_transcript_hash || opaque confirmation_tag<V>);
+// confirmed hash of 0..=2 bytes, tag of 0..=3 bytes
+#[kani::proof]
+#[kani::unwind(12)]
+fn c13_interim_transcript_hash_bounded_3() {
+    let c: [u8; 2] = kani::any();
+    let t: [u8; 3] = kani::any();
+    for_each_prefix(&c, |confirmed| {
+        for_each_prefix(&t, |tag| {
+            let p = GhostProvider::new();
+            // ConfirmationTag has no public constructor: decode it from <len> tag
+            let mut enc = vec![tag.len() as u8];
+            enc.extend_from_slice(tag);
+            let ct = ConfirmationTag::mls_decode(&mut &enc[..]).ok().unwrap();
+            assert!(bytes_eq(&ct, tag));
+            let cth = ConfirmedTranscriptHash::from(confirmed.to_vec());
+
+            let r = InterimTranscriptHash::create(&p, &cth, &ct);
+            assert!(r.is_ok());
+            let h = r.ok().unwrap();
+            kani::cover!(confirmed.len() == 2 && tag.len() == 3);
+            let mut want = Vec::with_capacity(8);
+            want.extend_from_slice(confirmed);
+            rfc_opaque(&mut want, tag);
+            assert!(p.calls() == 1);
+            assert!(p.is(0, Op::Hash, &[], &want, 0));
+            assert!(is_out(&h, 1, HASH_LEN));
+        })
+    });
+}
+
+#[kani::proof]
+#[kani::unwind(12)]
+fn c13_transcript_hash_provider_error() {
+    let p = GhostProvider::failing_at(0);
+    let ct = ConfirmationTag::mls_decode(&mut &[1u8, 7][..]).ok().unwrap();
+    let cth = ConfirmedTranscriptHash::from(any_exact::<2>());
+    let r = InterimTranscriptHash::create(&p, &cth, &ct);
+    kani::cover!(true);
+    assert!(is_provider_error(&r));
+    core::mem::forget(r);
+}
